@@ -6,6 +6,7 @@ pub mod c03;
 pub mod c04;
 pub mod c05;
 pub mod c06;
+pub mod c07;
 pub mod c08;
 pub mod c09;
 pub mod c10;
@@ -13,8 +14,10 @@ pub mod c11;
 pub mod c12;
 pub mod c20;
 pub mod c13;
+pub mod c14;
 pub mod c15;
 pub mod c17;
+pub mod c18;
 pub mod c19;
 
 pub fn run(ctx: &Ctx, rep: &mut Report) {
@@ -110,6 +113,7 @@ pub fn run(ctx: &Ctx, rep: &mut Report) {
         "C04" => c04::run(ctx, rep),
         "C05" => c05::run(ctx, rep),
         "C06" => c06::run(ctx, rep),
+        "C07" => c07::run(ctx, rep),
         "C08" => c08::run(ctx, rep),
         "C09" => c09::run(ctx, rep),
         "C10" => c10::run(ctx, rep),
@@ -117,8 +121,10 @@ pub fn run(ctx: &Ctx, rep: &mut Report) {
         "C12" => c12::run(ctx, rep),
         "C20" => c20::run(ctx, rep),
         "C13" => c13::run(ctx, rep),
+        "C14" => c14::run(ctx, rep),
         "C15" => c15::run(ctx, rep),
         "C17" => c17::run(ctx, rep),
+        "C18" => c18::run(ctx, rep),
         "C19" => c19::run(ctx, rep),
         other => rep.inconclusive(&format!("unknown property {}", other)),
     }
